@@ -112,12 +112,15 @@ def run_job(job):
         kwargs = dict(kwargs)
         caselist = cases if cases is not None else [None]
         agg = dict(paths=0, queries=0, solver_s=0.0, proved=0, failed=0, unknown=0, infeasible=0, reach=0,
-                   unwind_fail=0)
+                   unwind_fail=0, x_agree=0, x_disagree=0, **{"x_no-opinion": 0}, x_solver_s=0.0)
+        xc_left = [int(opts.get("cross_check_max", 60))]
         for ci, case in enumerate(caselist):
             c = Context(name=name, timeout_ms=opts.get("timeout_ms", 20000),
                         max_paths=opts.get("max_paths", 20000), unwind=opts.get("unwind", 64),
                         exact=opts.get("exact", True))
             c.max_wall_s = opts.get("max_wall_s", 600)
+            c.cross_check = bool(opts.get("cross_check")) or os.environ.get("VERIF_CROSS_CHECK") == "1"
+            c.cross_check_left = xc_left
 
             def harness(cx):
                 kw = dict(kwargs)
@@ -195,6 +198,8 @@ class Check:
         self.trusted = []
         self.samples = []
         self.traces_validated = 0
+        self.validate = []          # encoder-validation scenarios (replay_drivers/scenarios.py)
+        self.validation = {}
         self.extra_cov = {}
         self.replay_fn = None       # name of replay function in the harness module
         self.harness_module = None
@@ -203,6 +208,7 @@ class Check:
     def add(self, name, module, func, kwargs=None, **opts):
         if self.tier == "thorough":
             opts.setdefault("timeout_ms", 120000)
+            opts.setdefault("cross_check", True)
         self.jobs.append((name, module, func, kwargs or {}, opts))
 
     def add_mutant(self, mname, mutant, name, module, func, kwargs=None, **opts):
@@ -228,6 +234,32 @@ class Check:
             for (mname, _), r in zip(self.mutant_jobs, rs):
                 self.mutant_results.append((mname, r.status == "fail", r.status, r.reason[:200]))
         return self.results
+
+    # ---------------------------------------------------------------- encoder validation
+    def validate_encoder(self, build):
+        """Run each scenario concretely inside the interpreter over /repo's source and on the real build; compare."""
+        if not self.validate:
+            return []
+        names = list(self.validate)
+        with mp.get_context("fork").Pool(1) as pool:
+            mine = pool.apply(_scenarios_in_interpreter, (names,))
+        verdict, r = run_replay(build, ("replay_drivers.scenarios", "replay"), {"scenarios": names}, timeout=300)
+        real = (r or {}).get("outputs") if isinstance(r, dict) else None
+        bad = []
+        if real is None:
+            return [("encoder-validation", "real build did not run the scenarios: %s %s" % (verdict, str(r)[:300]))]
+        for nm in names:
+            a, b = mine.get(nm), real.get(nm)
+            if isinstance(a, dict) or isinstance(b, dict) or a is None or b is None:
+                bad.append(("encoder-validation/" + nm, "scenario failed: interpreter %s / real build %s" % (str(a)[:300], str(b)[:300])))
+                continue
+            n_ok, n_bad = _compare_traces(a, b)
+            self.validation[nm] = {"traces": n_ok + n_bad, "agree": n_ok}
+            self.traces_validated += n_ok
+            if n_bad:
+                bad.append(("encoder-validation/" + nm, "interpreter and real build disagree on %d of %d traces: %s vs %s"
+                            % (n_bad, n_ok + n_bad, json.dumps(a)[:300], json.dumps(b)[:300])))
+        return bad
 
     # ---------------------------------------------------------------- finish
     def finish(self, replay=None):
@@ -267,6 +299,18 @@ class Check:
                         violations.append(f)
                 else:
                     spurious.append(f)
+            if self.validate and os.environ.get("VERIF_NO_VALIDATE") != "1" and build is None and not repo_build_is_current() \
+                    and os.environ.get("VERIF_VALIDATE") != "always":
+                # a scratch build (minutes) only for validation is not worth it: the encoder is validated on every run
+                # where the in-place build is current or a replay needed a build anyway
+                self.validation = {"skipped": "the in-place build is older than the working tree and no replay needed a scratch build"}
+            elif self.validate and os.environ.get("VERIF_NO_VALIDATE") != "1":
+                if build is None:
+                    build = Build()
+                    build.acquire()
+                t1 = time.time()
+                inconclusive += self.validate_encoder(build)
+                self.t_validate = time.time() - t1
         finally:
             if build is not None:
                 build.release()
@@ -305,7 +349,8 @@ class Check:
         return exitcode
 
     def totals(self):
-        tot = dict(paths=0, queries=0, proved=0, failed=0, solver_s=0.0, reach=0, unknown=0)
+        tot = dict(paths=0, queries=0, proved=0, failed=0, solver_s=0.0, reach=0, unknown=0, x_agree=0, x_disagree=0,
+                   x_solver_s=0.0, **{"x_no-opinion": 0})
         for r in self.results:
             for k in tot:
                 tot[k] += r.stats.get(k, 0)
@@ -362,6 +407,11 @@ class Check:
             "mutants": [dict(name=m[0], killed=m[1]) for m in getattr(self, "mutant_results", [])],
             "trusted_base": self.trusted,
             "notes": self.notes,
+            "encoder_validation": self.validation,
+            "second_solver": {"solver": "cvc5 (python wheel) on z3's SMT-LIB print of the query; first proof of each obligation label, at most 60 per job, 3 s each; %s" %
+                              ("thorough tier" if self.tier == "thorough" else "off in the quick tier unless VERIF_CROSS_CHECK=1"),
+                              "agree_unsat": tot["x_agree"], "disagree": tot["x_disagree"], "no_opinion_timeout_or_unknown": tot["x_no-opinion"],
+                              "time_s": round(tot["x_solver_s"], 2)},
         }
         cov.update(self.extra_cov)
         ev = {
@@ -377,6 +427,46 @@ class Check:
         os.makedirs(os.path.join(VERIF, "evidence"), exist_ok=True)
         with open(os.path.join(VERIF, "evidence", "%s.json" % self.pid), "w") as f:
             json.dump(ev, f, indent=1, default=str)
+
+
+def _scenarios_in_interpreter(names):
+    from replay_drivers import scenarios as SC
+    interp = Interp(REPO)
+
+    def api(module, name):
+        return interp.load(module).ns[name]
+    out = {}
+    for nm in names:
+        c = Context(name="validate/" + nm, exact=False)
+        box = {}
+
+        def h(cx):
+            box["v"] = SC.SCENARIOS[nm](api)
+        try:
+            c.run(h)
+            out[nm] = json.loads(json.dumps(box.get("v"), default=float))
+        except BaseException as e:
+            out[nm] = {"error": "%s: %s" % (type(e).__name__, str(e)[:300])}
+    return out
+
+
+def _compare_traces(a, b):
+    """top-level elements are traces; numbers agree to 1e-9 relative"""
+    def close(x, y):
+        if isinstance(x, list) and isinstance(y, list):
+            return len(x) == len(y) and all(close(p, q) for p, q in zip(x, y))
+        if isinstance(x, list) or isinstance(y, list):
+            return False
+        try:
+            if x != x and y != y:
+                return True
+            return x == y or abs(x - y) <= 1e-9 * max(1.0, abs(x), abs(y))
+        except TypeError:
+            return False
+    if not (isinstance(a, list) and isinstance(b, list)) or len(a) != len(b):
+        return 0, max(len(a) if isinstance(a, list) else 1, 1)
+    ok = sum(1 for p, q in zip(a, b) if close(p, q))
+    return ok, len(a) - ok
 
 
 def _z3ver():
